@@ -106,6 +106,73 @@ def untyped(res):
     return {k: v for k, v in res.items() if not k.startswith('typed-')}
 
 
+def escape_check(oc, pid='C12'):
+    """C12, first clause: classifying a well-formed document never escapes with a built-in exception - whichever
+    documented way the document comes in (str, bytes, file, S3 object; typed constructors) and whatever encoding its
+    XML declaration names.  Only the KIND of outcome is judged here (C08 and C18 judge the class and the content)."""
+    import codecs
+    docs = {'roDelete': TJ.to_text(E('mos', E('mosID', text='caf\u00e9'), E('messageID', text='7'), E('roDelete', E('roID', text='R\u00d6-\u00e9')))),
+            'roCreate': TJ.to_text(B.ro_doc([B.story('\u00c5', [B.item('\u00e5-1'), B.p('na\u00efve \u20ac')])], message_id='1', slug='\u00dcbersicht')),
+            'unknown': '<mos><mosID>x</mosID><something\u00c9lse/></mos>',
+            'ascii only': TJ.to_text(B.story_append([B.story('S1', [])], message_id='3'))}
+    for name, body in docs.items():
+        for enc, decl, bom in (('iso-8859-1', 'ISO-8859-1', b''), ('utf-16', 'UTF-16', b''), ('utf-8', 'UTF-8', b''), ('utf-8', None, codecs.BOM_UTF8),
+                               ('utf-16-be', 'UTF-16', codecs.BOM_UTF16_BE), ('utf-16-le', 'UTF-16', codecs.BOM_UTF16_LE), ('cp1252', 'windows-1252', b''),
+                               ('ascii', 'US-ASCII', b'')):
+            try:
+                data = bom + (('<?xml version="1.0" encoding="%s"?>' % decl if decl else '') + body).encode(enc)
+            except UnicodeEncodeError:
+                continue                                   # this content has no spelling in that encoding
+            res = from_all_sources(None, data)
+            oc.evaluations += 1
+            oc.in_domain += 1
+            oc.count('classification-sources')
+            # (a typed constructor handed a document of another class is not classification: not judged here)
+            bad = {k: v['err'] for k, v in untyped(res).items() if 'err' in v and str(v['err']).startswith('crash:')}
+            if bad:
+                oc.failing.append({'kind': 'sources-escape', 'data_hex': data.hex(), 'label': f'{name} encoded as {enc}{"+BOM" if bom else ""}',
+                                   'spec': 'classifying a well-formed XML document escaped with a built-in exception', 'impl': bad})
+
+
+def detect_completed_check(oc, pid='C07'):
+    """C07, read-back clause, through the command line: a running order that was completed by a roDelete, written out,
+    is reported by `mosromgr detect` / `inspect` as `RunningOrder (completed)` - from a file, from an S3 prefix and
+    from a single S3 key - and one that never received a roDelete is never reported completed."""
+    from . import impl
+    docs = {}
+    for n, stories in (('empty', []), ('two', [B.story('A', [B.item('a1')]), B.story('B', [])])):
+        for done in (False, True):
+            ro = impl.load(TJ.to_text(B.ro_doc(stories, message_id='1')))
+            ro += impl.load(TJ.to_text(B.story_append([B.story('N', [B.p('x')])], message_id='2')))
+            if done:
+                ro += impl.load(TJ.to_text(B.ro_delete(message_id='3')))
+            docs[f'{n}-{"completed" if done else "open"}.mos.xml'] = (str(ro), bool(ro.completed))
+    root = tempfile.mkdtemp(prefix='mrm-c07-cli-')
+    try:
+        for name, (text, _) in docs.items():
+            with open(os.path.join(root, name), 'w', encoding='utf-8') as f:
+                f.write(text)
+        objs = {'ro/' + name: text.encode('utf-8') for name, (text, _) in docs.items()}
+        for cmd in ('detect', 'inspect'):
+            routes = [('files', [cmd, '-f'] + [os.path.join(root, n) for n in sorted(docs)], [os.path.join(root, n) for n in sorted(docs)]),
+                      ('s3 prefix', [cmd, '-b', 'bucket', '-p', 'ro/'], ['ro/' + n for n in sorted(docs)])]
+            routes += [('s3 key', [cmd, '-b', 'bucket', '-k', 'ro/' + n], ['ro/' + n]) for n in sorted(docs)]
+            for route, argv, shown in routes:
+                coll_family.install_fake_s3(coll_family.FakeS3(objs, page_size=3))
+                so, se, rv = run_cli(argv)
+                oc.evaluations += 1
+                oc.in_domain += 1
+                oc.count('cli-detect-completed:' + route)
+                got = [l for l in split_lines(so) if any(l.startswith(p_ + ': ') for p_ in shown)]
+                exp = [f'{p_}: RunningOrder' + (' (completed)' if docs[os.path.basename(p_)][1] else '') for p_ in shown]
+                if got != exp or rv not in (None, 0):
+                    oc.failing.append({'kind': 'cli-detect-completed', 'cmd': cmd, 'argv': argv[:4], 'label': f'{cmd} over {route}',
+                                       'spec': 'a completed running order written out is reported as "RunningOrder (completed)" by the command line, an open one without the marker',
+                                       'impl': {'stdout': so[:800], 'stderr': se[:300], 'returned': str(rv)}, 'expected': exp})
+    finally:
+        shutil.rmtree(root, ignore_errors=True)
+
+
 def reader_obs(text):
     """MosReader metadata vs the object it restores, via the three constructors."""
     from . import impl
@@ -296,6 +363,11 @@ def replay_c18(pid, fl):
         res = from_all_sources(None, bytes.fromhex(fl['data_hex']))
         expect = from_all_sources(fl['body'])['str']
         bad = any(v != expect for v in untyped(res).values()) or not sources_agree(res)
+    elif fl['kind'] == 'sources-escape':
+        res = from_all_sources(None, bytes.fromhex(fl['data_hex']))
+        esc = {k: v['err'] for k, v in untyped(res).items() if 'err' in v and str(v['err']).startswith('crash:')}
+        print({'escaped': esc})
+        bad = bool(esc)
     elif fl['kind'] == 'listing':
         coll_family.install_fake_s3(coll_family.FakeS3({}, pages=fl['pages']))
         got = s3mod.get_mos_files('bucket', fl['prefix'] or None, suffix=fl['suffix'])
